@@ -473,6 +473,10 @@ class ExecSim(object):
             d['timeout'] = float(spec['timeout'])
         if spec.get('startup_timeout'):
             d['startup_timeout'] = float(spec['startup_timeout'])
+        if 'sleep_arg' in spec:
+            d['executable'] = '/bin/sleep'
+            if spec['sleep_arg'] is not None:
+                d['arguments'] = [str(spec['sleep_arg'])]
         td = rp.TaskDescription(d)
         td.verify()
         sbox = '%s/%s' % (self.psbox, uid)
@@ -719,6 +723,8 @@ class ExecSim(object):
             same = same + 1 if fp2 == fp else 0
             fp = fp2
             if same >= 2:
+                if not exited and self.spawner == 'NOOP':
+                    self.baton.now += 1000.0          # every simulated sleep has elapsed by now
                 if not exited:
                     # everything has settled.  A process which is still running although its
                     # limit passed well before this point was not stopped: nothing would stop it
